@@ -118,7 +118,12 @@ class TBRMatchedMarkets:
       geos_with_max_impact = list(
           self.geo_req_impact.sort_values(ascending=False).index)
       geos_in_order = list(geo for geo in geos_with_max_impact if geo in geos)
-      geos = set(geos_in_order[:n_geos_max])
+      # Geos that must be included are never dropped; the remaining places are
+      # filled with the geos with the highest impact.
+      must_include = self.geos_must_include & geos
+      other_geos = [geo for geo in geos_in_order if geo not in must_include]
+      n_other_geos = max(n_geos_max - len(must_include), 0)
+      geos = must_include | set(other_geos[:n_other_geos])
     return geos
 
   @property
